@@ -143,7 +143,7 @@ impl Property for C15 {
     }
 
     fn tape_len(&self) -> usize {
-        700
+        1600
     }
 
     fn label_floors(&self) -> Vec<(&'static str, f64)> {
@@ -152,7 +152,9 @@ impl Property for C15 {
 
     fn generate(&self, t: &mut Tape, ctx: &Ctx) -> Case {
         let table = gen_table(t, "t", "c", false);
-        let mut lines = gen_group_lines(t, &table, 14);
+        // one case in ten: a wide value domain and up to 40 lines (more than a handful of distinct values per group)
+        let wide = t.chance(1, 10);
+        let mut lines = if wide { crate::props::c04::gen_wide_lines(t, &table, 40) } else { gen_group_lines(t, &table, 14) };
         let nan = !table.json && table.cols.iter().any(|c| c.1 == Ty::Real) && t.chance(1, 5);
         if nan {
             lines.clear();
@@ -216,15 +218,29 @@ impl Property for C15 {
         for i in 0..naggs {
             q.items.push((g.aggregate(t, false), Some(format!("a{}", i))));
         }
-        // an aggregate that always has a value keeps every group visible (known finding F09b is about the others)
-        q.items.push((E::Agg("COUNT".into(), false, vec![E::Star]), Some("an".into())));
+        let int_cols: Vec<String> = table.cols.iter().filter(|c| c.1 == Ty::Int).map(|c| c.0.clone()).collect();
+        let bool_only = !q.group_by.is_empty() && !int_cols.is_empty() && t.chance(1, 10);
+        if bool_only {
+            // only group keys and BOOL_OR / BOOL_AND over comparisons (which always have a value) in the select list; the
+            // aggregates HAVING needs are not in it
+            q.items.truncate(q.group_by.len());
+            let n = 1 + t.draw(2);
+            for i in 0..n {
+                let cmp = E::bin(*t.pick(&[BinOp::Gt, BinOp::Eq, BinOp::Le]), E::col(t.pick(&int_cols).as_str()), E::Int(t.range(0, 2)));
+                q.items.push((E::Agg(if t.chance(1, 2) { "BOOL_OR" } else { "BOOL_AND" }.into(), false, vec![cmp]), Some(format!("a{}", i))));
+            }
+        } else {
+            // an aggregate that always has a value keeps every group visible (known finding F09b is about the others)
+            q.items.push((E::Agg("COUNT".into(), false, vec![E::Star]), Some("an".into())));
+        }
         if t.chance(1, 4) {
             let scope = Scope { cols: table.cols.clone() };
             let mut tg = TypedGen::new(&scope, GenCfg::plain(), ctx);
             q.filter = Some(tg.gen(t, Ty::Bool, 2));
         }
-        if t.chance(1, 5) {
-            q.having = Some(E::bin(*t.pick(&BinOp::CMP), E::Agg("COUNT".into(), false, vec![]), E::Int(t.range(0, 3))));
+        if t.chance(1, 5) || bool_only {
+            let agg = if bool_only && t.chance(1, 2) { E::Agg("SUM".into(), false, vec![E::col(t.pick(&int_cols).as_str())]) } else { E::Agg("COUNT".into(), false, vec![]) };
+            q.having = Some(E::bin(*t.pick(&BinOp::CMP), agg, E::Int(t.range(0, 3))));
         }
         if !q.group_by.is_empty() && t.chance(1, 6) {
             // groups come out in key order, so LIMIT keeps a set of groups that does not depend on the input order
